@@ -18,4 +18,5 @@ INVARIANT MassFracsSumToOne
 INVARIANT ConversionsInverse
 PROPERTY ReadBack
 PROPERTY Locality
+POSTCONDITION CountReport
 CHECK_DEADLOCK FALSE
